@@ -692,7 +692,7 @@ def stmt(s, c: Ctx, subst=None) -> list[str]:
 # and its object is never stored anywhere else (another name, a list display, an appended element, a call argument); it may be
 # read where only its contents are consumed (len, in, ==, slices, +, iteration that does not mutate it, extend's argument,
 # join, sorted, list(), conditions) and returned.  Everything else fails closed.
-_MUTATORS = ("append", "extend", "pop")
+_MUTATORS = ("append", "extend", "pop", "remove", "add")
 _CONSUMING_CALLS = ("len", "sorted", "list", "zip", "dict.fromkeys", "isinstance", "hasattr", "getattr", "vars")
 
 
@@ -717,6 +717,8 @@ def _fresh_list(v) -> bool:
         f = unparse(v.func)
         if isinstance(v.func, ast.Attribute) and v.func.attr == "pop" and len(v.args) == 1 and not v.keywords:
             return True                           # x = d.pop(k): the object leaves its container
+        if f in ("set", "defaultdict") and (not v.args or unparse(v) == "defaultdict(list)"):
+            return True
         return f in ("sorted", "list") or (isinstance(v.func, ast.Attribute) and v.func.attr in ("split", "copy") and not v.args)
     return False
 
@@ -877,8 +879,10 @@ def alias_check(body, c: Ctx, extra=()) -> None:
         if isinstance(p, ast.Call):
             f = unparse(p.func)
             if node in p.args:
-                if f in _CONSUMING_CALLS or f in c.prims or f in c.procs or f in ("set", "filter", "enumerate") or f in c.record_ctors:
+                if f in _CONSUMING_CALLS or f in c.prims or f in c.procs or f in ("set", "filter", "enumerate"):
                     return True
+                if f in c.record_ctors:           # a new object keeps its arguments: fine only when it is returned at once
+                    return isinstance(parent.get(p), ast.Return)
                 if isinstance(p.func, ast.Attribute) and p.func.attr in ("extend", "join"):
                     return True
                 if f in ("setattr", "delattr") and p.args[0] is node:
